@@ -163,7 +163,7 @@ Section Unparse.
   Let alloc := alloc_tokens (s_alloc s).
 
   Definition field_pty (f : field_ir) : pty :=
-    if fi_boxed f then mk_ppath (alloc_segs alloc) ["boxed"; "Box"] [ir_pty alloc (fi_path f)]
+    if fi_emit_boxed f then mk_ppath (alloc_segs alloc) ["boxed"; "Box"] [ir_pty alloc (fi_path f)]
     else ir_pty alloc (fi_path f).
 
   Definition compact_attrs (codec : bool) (f : field_ir) : list tokens :=
